@@ -23,6 +23,10 @@ for mid in ids:
   d = os.path.join(HERE, 'seeded', mid)
   meta = json.load(open(os.path.join(d, 'meta.json')))
   prop = meta['property']
+  if meta.get('not_applicable'):
+    results[mid] = {'applies': True, 'not_applicable': meta['not_applicable']}
+    print(mid, 'NOT APPLICABLE (see meta.json)')
+    continue
   scratch = tempfile.mkdtemp(prefix='ginsim_mut_', dir='/dev/shm')
   try:
     subprocess.check_call(['rsync', '-a', '--exclude', '.git', '/repo/', scratch + '/'])
@@ -54,5 +58,8 @@ for mid in ids:
   finally:
     shutil.rmtree(scratch, ignore_errors=True)
 json.dump(results, open(respath, 'w'), indent=1, sort_keys=True)
-bad = [m for m, r in results.items() if not r.get('applies') or r.get('exit') != 1]
-print('detected %d of %d; not detected / not applicable: %s' % (len(results) - len(bad), len(results), bad))
+na = [m for m, r in results.items() if r.get('not_applicable')]
+bad = [m for m, r in results.items()
+       if not r.get('not_applicable') and (not r.get('applies') or r.get('exit') != 1)]
+print('detected %d of %d applicable; not detected: %s; outside the properties: %s' %
+      (len(results) - len(bad) - len(na), len(results) - len(na), bad, na))
